@@ -41,7 +41,7 @@ func init() {
 			"'tree unmodified' is decided by a structural reflection snapshot taken by the monitor before the call",
 			"the order of ResolvePackage calls follows map iteration, so fail-at-k hits a different package from run to run; every k is covered, not every (k, package) pair",
 		},
-		Required: map[string]int{"fault_kinds": 9},
+		Required: map[string]int{"fault_kinds": 10},
 	})
 }
 
@@ -397,6 +397,8 @@ func c17Decorate(c *fw.Ctx, id, name string, src []byte) {
 			}
 		}
 	}
+	// (b2') single declarations decorated on their own (DecorateNode on something that is not a file)
+	c17Isolated(c, id, name, src)
 	// (b3) the same file read from a directory: Decorator.ParseDir with a failing identifier resolver,
 	// and with a failing package-name resolver inside the syntax-only resolver
 	if strings.HasSuffix(name, ".go") && !strings.HasSuffix(name, "_test.go") && len(src) < 40000 {
@@ -432,6 +434,103 @@ func c17Decorate(c *fw.Ctx, id, name string, src []byte) {
 		}
 		c.Nontrivial(cid)
 	})
+}
+
+// c17Table is a syntax-only identifier resolver that needs no *ast.File: the qualifier names are
+// given to it.
+type c17Table map[string]string
+
+func (t c17Table) ResolveIdent(file *ast.File, parent ast.Node, parentField string, id *ast.Ident) (string, error) {
+	if se, ok := parent.(*ast.SelectorExpr); ok && parentField == "Sel" {
+		if x, ok := se.X.(*ast.Ident); ok && x.Obj == nil {
+			return t[x.Name], nil
+		}
+	}
+	return "", nil
+}
+
+// c17Isolated decorates the first declarations of a file one at a time with DecorateNode and
+// injects identifier-resolver failures.
+func c17Isolated(c *fw.Ctx, id, name string, src []byte) {
+	fset := token.NewFileSet()
+	af, err := parser.ParseFile(fset, name, src, parser.ParseComments)
+	if err != nil {
+		return
+	}
+	table := c17Table{}
+	for _, im := range af.Imports {
+		p := strings.Trim(im.Path.Value, "\"`")
+		n := p[strings.LastIndex(p, "/")+1:]
+		if im.Name != nil {
+			n = im.Name.Name
+		}
+		if n != "_" && n != "." {
+			table[n] = p
+		}
+	}
+	paths := func(n dst.Node) string {
+		var sb strings.Builder
+		dst.Inspect(n, func(x dst.Node) bool {
+			if i, ok := x.(*dst.Ident); ok {
+				sb.WriteString(i.Name + "@" + i.Path + " ")
+			}
+			return true
+		})
+		return sb.String()
+	}
+	done := 0
+	for di, decl := range af.Decls {
+		if gd, ok := decl.(*ast.GenDecl); ok && gd.Tok == token.IMPORT {
+			continue
+		}
+		if done >= 3 {
+			break
+		}
+		probe := &failingIdentResolver{inner: table}
+		var ref dst.Node
+		var refErr error
+		if sig, _ := fw.Try(func() { ref, refErr = decorator.NewDecoratorWithImports(fset, "example.com/self", probe).DecorateNode(decl) }); sig != "" || refErr != nil || refl.IsNil(ref) {
+			continue
+		}
+		K := probe.calls
+		if K == 0 {
+			continue
+		}
+		done++
+		refPaths := paths(ref)
+		seen := map[int]bool{}
+		for _, k := range []int{1, 2, (K + 1) / 2, K} {
+			if k < 1 || k > K || seen[k] {
+				continue
+			}
+			seen[k] = true
+			cid := fmt.Sprintf("%s/isolated-decl%d-fail@%d", id, di, k)
+			c.Case(cid, func() {
+				c.Observe("fault_kinds", "ident-resolver-on-isolated-node")
+				fr := &failingIdentResolver{inner: table, failAt: k}
+				var out dst.Node
+				var err error
+				if sig, detail := fw.Try(func() { out, err = decorator.NewDecoratorWithImports(fset, "example.com/self", fr).DecorateNode(decl) }); sig != "" {
+					c.Violate("panic-on-fault", sig, cid+"\n"+detail, string(src))
+					return
+				}
+				if fr.calls < k {
+					c.Count("fault_point_not_reached", 1)
+					return
+				}
+				c17Verdict(c, cid, "decorate-node", err, !refl.IsNil(out), 0, string(src))
+				out2, err2 := decorator.NewDecoratorWithImports(fset, "example.com/self", table).DecorateNode(decl)
+				if err2 != nil || refl.IsNil(out2) {
+					c.Violate("retry-fails", "retry-fails:decorate-node", fmt.Sprintf("%s: %v", cid, err2), string(src))
+					return
+				}
+				if paths(out2) != refPaths {
+					c.Violate("retry-differs", "retry-differs:decorate-node", cid+": retry gives other identifier paths than the failure-free run", string(src))
+				}
+				c.Nontrivial(cid)
+			})
+		}
+	}
 }
 
 // c17ParseDir writes the file and a companion file of the same package into a scratch directory and
